@@ -313,7 +313,10 @@ static void on_report(struct sim *s, const uint8_t *p, uint32_t len)
 	if (ex->open && !s->tfault_on_conn && !ex->first_report_checked) {
 		ex->first_report_checked = true;
 		CNT("c14/first_reports_judged");
-		if (ex->ncand == 0) {
+		if (ex->ncand == 0 && SIM_ALLOC_PAUSE && code == 1) {
+			/* Internal Error while an allocation failure is being injected: legitimate */
+			CNT("c14/internal_error_reports_under_alloc_failure");
+		} else if (ex->ncand == 0) {
 			snprintf(key, sizeof(key), "C14:report-without-violation:code-%u:%s", code, dname(s));
 			viol("C14", key, "client sent Error Report code %u although the response so far contains no violation (%s)", code, dname(s));
 		} else {
